@@ -253,7 +253,19 @@ def yaml_emitter_keeps_order(ctx: Ctx) -> None:
     modules (and the keys of per-region area maps) of every document written"""
     f = ctx.func(UTILS, "write_yaml")
     ctors = [n for n in walk_own(f.node) if isinstance(n, ast.Call) and call_name(n) == "YAML"]
-    if not ctors:
+    # the emitter and the text buffer belong to one call: objects kept at module level are shared by all documents ever written
+    # in the process (a text buffer that is rewound but not emptied appends the tail of a longer, earlier document)
+    local_names = {t.id for n in walk_own(f.node) if isinstance(n, (ast.Assign, ast.AnnAssign, ast.With))
+                   for t in ([x for tg in n.targets for x in ast.walk(tg)] if isinstance(n, ast.Assign) else
+                             ([n.target] if isinstance(n, ast.AnnAssign) else [i.optional_vars for i in n.items if i.optional_vars is not None]))
+                   if isinstance(t, ast.Name)} | set(f.params())
+    shared = sorted({n.func.value.id for n in walk_own(f.node) if isinstance(n, ast.Call) and isinstance(n.func, ast.Attribute) and isinstance(n.func.value, ast.Name)
+                     and n.func.attr in ("dump", "getvalue", "seek", "write", "truncate") and n.func.value.id not in local_names})
+    ctx.site(f.where, "emitter and text buffer are created by the call that uses them", shared=shared)
+    for nm in shared:
+        ctx.report(f.where, f"writer-shared-object {nm}", f"write_yaml works on the module-level object '{nm}' that all calls share: what a call returns depends on the "
+                   "documents written earlier in the process", lineno=f.node.lineno)
+    if not ctors and not shared:
         raise AnalysisError("write_yaml: construction of the YAML emitter not found")
     for n in ctors:
         typ = n.args[0] if n.args else next((k.value for k in n.keywords if k.arg == "typ"), None)
